@@ -83,3 +83,94 @@ func init() {
 		return hexs(pql.VerifQuoteIdentifier(unhex(c.Fields[1])))
 	}
 }
+
+func init() {
+	// COMPILE2 srcA srcB params : two programs that differ only in literal / name contents
+	moreOps["COMPILE2"] = func(c Case) string {
+		params, has := parseParams(c.Fields[2])
+		a := fmtCompile(compileWith(unhex(c.Fields[0]), params, has))
+		b := fmtCompile(compileWith(unhex(c.Fields[1]), params, has))
+		return a + " ;; " + b
+	}
+	caseSets["content"] = genContentCases
+}
+
+var quoteAlphabet = []string{"'", "\"", "`", "\\", "-", "/", "*", ";", "a", " ", "\n", "\x00", "\xff"}
+
+var nastyStrings = []string{
+	`'x'`, `'it\'s'`, `"say \"hi\""`, `'--'`, `'/*'`, `'*/'`, `';'`, `'; drop table t; --'`, `'\''`, `"'"`, `'"'`, "'`'",
+	`'a\nb'`, `'\t'`, `''`, `'é'`, `'\\'`, `'a\\'`, `'\\\''`, `"x' or '1'='1"`, `') --'`, `'(select 1)'`, `'$left'`, `'{p:Int}'`, `'?'`,
+}
+var nastyIdents = []string{
+	"`x`", "`a``b`", "`a\"b`", "`a'b`", "`--`", "`/*`", "`;`", "`a b`", "`\"`", "`\"\"`", "`x\" , (select 1) as \"y`", "`é`", "`\\`", "`a\\`",
+	"`$left`", "`select`", "``````",
+}
+var intLits = []string{"0", "1", "7", "42", "007", "0x1F", "0XaB", "100000000000", "18446744073709551615"}
+var floatLits = []string{"1.5", ".5", "1.", "1e3", "1E-2", "0.0", "00.25", "2.e1"}
+
+func isFloatLit(t string) bool { return strings.ContainsAny(t, ".eE") && !strings.HasPrefix(strings.ToLower(t), "0x") }
+
+// mutateContent replaces the content of every string literal, quoted identifier and number
+// token by another content of the same kind.
+func mutateContent(toks []string) []string {
+	out := make([]string, len(toks))
+	for i, t := range toks {
+		switch {
+		case len(t) > 0 && (t[0] == '\'' || t[0] == '"'):
+			out[i] = pick(nastyStrings)
+		case len(t) > 0 && t[0] == '`':
+			out[i] = pick(nastyIdents)
+		case len(t) > 0 && (t[0] >= '0' && t[0] <= '9' || (t[0] == '.' && len(t) > 1)):
+			if isFloatLit(t) {
+				out[i] = pick(floatLits)
+			} else {
+				out[i] = pick(intLits)
+			}
+		default:
+			out[i] = t
+		}
+	}
+	return out
+}
+
+func genContentCases(tier string, emit func(op string, fields ...string)) {
+	n, maxLen := 3000, 3
+	if tier == "thorough" {
+		n, maxLen = 50000, 4
+	}
+	// the two quoting functions, exhaustively over a small adversarial alphabet
+	emit("QUOTE", "s", hexs(""))
+	emit("QUOTE", "i", hexs(""))
+	for l := 1; l <= maxLen; l++ {
+		enumerate(quoteAlphabet, l, func(s string) {
+			emit("QUOTE", "s", hexs(s))
+			emit("QUOTE", "i", hexs(s))
+		})
+	}
+	for i := 0; i < n; i++ {
+		var sb strings.Builder
+		for k, m := 0, rng.Intn(20); k < m; k++ {
+			if rng.Intn(3) == 0 {
+				sb.WriteByte(byte(rng.Intn(256)))
+			} else {
+				sb.WriteString(pick(quoteAlphabet))
+			}
+		}
+		emit("QUOTE", "s", hexs(sb.String()))
+		emit("QUOTE", "i", hexs(sb.String()))
+	}
+	// whole programs and content-mutated twins
+	for i := 0; i < n; i++ {
+		toks := genProgramToks(nil, 1+rng.Intn(3))
+		a := mutateContent(toks)
+		b := mutateContent(toks)
+		emit("COMPILE2", hexs(layout(a, false)), hexs(layout(b, false)), "-")
+		emit("COMPILE", hexs(layout(a, false)), "-")
+	}
+	for _, s := range []string{
+		"T | render `x' , (select 1) as y, '`", "T | render t with (`a\" b` = 'v\\'w')", "T | where a == 'a\\\\'", "`a\\` | count",
+		"T | project `x\"y` = 'it\\'s'", "T | as `a\"b` | count", "T | extend 'a;b'", "T | summarize count() by `k\"`",
+	} {
+		emit("COMPILE", hexs(s), "-")
+	}
+}
